@@ -146,6 +146,7 @@ def check_call(qualname, args, fn_override=None):
     ensures_clauses = []  # (ast, src)
     is_pure = False
     may_raise = []
+    may_unchanged = []
     try:
         for st in node.body:
             if isinstance(st, ast.Expr) and isinstance(st.value, ast.Constant):
@@ -171,6 +172,8 @@ def check_call(qualname, args, fn_override=None):
                 elif f == "may_raise":
                     exc = _ev(c.args[0], env)
                     may_raise.append(exc)
+                    if any(kw.arg == "unchanged" and _ev(kw.value, env) for kw in c.keywords):
+                        may_unchanged.append(exc)
                 elif f == "raises":
                     exc = _ev(c.args[0], env)
                     when = True
@@ -201,7 +204,7 @@ def check_call(qualname, args, fn_override=None):
     except Exception as e:  # contract could not be evaluated in the pre-state
         return Outcome("error", "pre-state evaluation failed: " + "".join(traceback.format_exception_only(type(e), e)).strip())
 
-    need_snap = is_pure or any(rc[3] for rc in raises_clauses)
+    need_snap = is_pure or any(rc[3] for rc in raises_clauses) or bool(may_unchanged)
     pre_snap = snapshot([v for v in args.values()]) if need_snap else None
     # --- call the real function
     sig = inspect.signature(fn)
@@ -234,6 +237,8 @@ def check_call(qualname, args, fn_override=None):
     must_be_unchanged = any(u for exc, when, src, u in raises_clauses if when)
     if raised is not None:
         if any(isinstance(raised, exc) for exc in may_raise):
+            if any(isinstance(raised, exc) for exc in may_unchanged) and snapshot([v for v in args.values()]) != pre_snap:
+                return Outcome("violation", "rejected call changed its arguments (may_raise(..., unchanged=True))", "unchanged-on-raise")
             if is_pure and snapshot([v for v in args.values()]) != pre_snap:
                 return Outcome("violation", "arguments modified by a function declared pure()", "pure")
             return Outcome("ok")
